@@ -348,6 +348,59 @@ def run_integrand(S):
 
 
 # --------------------------------------------------------------------------- driver
+# --------------------------------------------------------------------------- Mesh.geometry
+def make_orchestration_run(have_rz, smoothing):
+    """Real Mesh.geometry on three recorder regions: the order in which the per-region steps run
+    respects the data flow between regions that the per-region contracts rely on --
+      geometry2 reads its y-neighbours' Bpxy (cap) and calcHy their contours   -> after EVERY geometry1
+      calcMetric differentiates dphidy (DDX) and Bxy (DDY) across region joins  -> after EVERY geometry2
+    -- every step runs exactly once per region, R/Z are (re)computed first exactly when a region
+    lacks them, and the curvature outputs are smoothed only when asked."""
+    from hypnotoad.core import mesh as M
+
+    def run(ctx):
+        log = []
+
+        class Region:
+            def __init__(self, name, has):
+                self.name = name
+                if has:
+                    self.Rxy = self.Zxy = object()
+
+            def __getattr__(self, meth):
+                if meth in ("calcDistances", "geometry1", "geometry2", "calcZShift", "calcMetric"):
+                    return lambda: log.append((meth, self.name))
+                raise AttributeError(meth)
+
+        names = ["a", "b", "c"]
+        m = object.__new__(M.Mesh)
+        m.regions = {i: Region(n, have_rz or n != "b") for i, n in enumerate(names)}
+        m.user_options = types.SimpleNamespace(curvature_smoothing=smoothing, shiftedmetric=True)
+        m.calculateRZ = lambda: log.append(("calculateRZ", None))
+        m.smoothnl = lambda v: log.append(("smoothnl", v))
+        with patched((M, "print", lambda *a, **k: None)):
+            M.Mesh.geometry(m)
+        idx = lambda meth, n: [k for k, e in enumerate(log) if e == (meth, n)]
+        with spec_mode():
+            T = lambda b: Sym(__import__("z3").BoolVal(bool(b)))
+            for meth in ("calcDistances", "geometry1", "geometry2", "calcZShift", "calcMetric"):
+                ctx.oblige(T(all(len(idx(meth, n)) == 1 for n in names)), "%s runs exactly once for every region" % meth)
+            once = all(len(idx(meth, n)) == 1 for meth in ("calcDistances", "geometry1", "geometry2", "calcZShift", "calcMetric") for n in names)
+            if once:
+                first = lambda meth: min(idx(meth, n)[0] for n in names)
+                last = lambda meth: max(idx(meth, n)[0] for n in names)
+                ctx.oblige(T(last("calcDistances") < first("geometry1")), "distances (dx, dy) of every region before any geometry1")
+                ctx.oblige(T(last("geometry1") < first("geometry2")), "geometry1 of EVERY region before any geometry2 (neighbours' Bp, hy across joins)")
+                ctx.oblige(T(last("geometry2") < first("calcMetric")), "geometry2 of EVERY region before any calcMetric (derivatives of dphidy, Bxy across joins)")
+            rz = [k for k, e in enumerate(log) if e[0] == "calculateRZ"]
+            ctx.oblige(T((rz == [0]) if not have_rz else (rz == [])), "R, Z computed first exactly when some region lacks them")
+            sm = [e[1] for e in log if e[0] == "smoothnl"]
+            want = ["bxcvx", "bxcvy", "bxcvz", "curl_bOverB_x", "curl_bOverB_y", "curl_bOverB_z"] if smoothing == "smoothnl" else []
+            ctx.oblige(T(sorted(sm) == sorted(want) and (not sm or min(k for k, e in enumerate(log) if e[0] == "smoothnl") > max(k for k, e in enumerate(log) if e[0] == "calcMetric"))), "curvature outputs smoothed (after the metric) exactly when curvature_smoothing == 'smoothnl'")
+
+    return run
+
+
 def build(S):
     mk.silence_pyplot()
     S.under_contract(FN_METRIC, FN_GEOM2, FN_BETA, FN_ZSHIFT)
@@ -363,6 +416,9 @@ def build(S):
         S.contract("calcMetric[nonorthogonal]", FN_METRIC, make_metric_run(False, ("centre", "ylow"), must_fail=twin), expected_exceptions=(ValueError,), replay=replay_metric(False), shape="1x1 per location, centre+ylow")
         S.contract("geometry2;calcMetric[orthogonal, cap_Bp_ylow_xpoint]", FN_METRIC, make_metric_run(True, mk.LOCS4, capped=True), expected_exceptions=(ValueError,), shape="1x1 per location, 4 locations; cap stubbed (C06)")
         S.contract("geometry2;calcMetric[nonorthogonal, cap_Bp_ylow_xpoint]", FN_METRIC, make_metric_run(False, ("centre", "ylow"), capped=True), expected_exceptions=(ValueError,), shape="1x1 per location, centre+ylow; cap stubbed (C06)")
+        S.under_contract("hypnotoad.core.mesh:Mesh.geometry")
+        for have_rz, sm in ((True, None), (False, None), (True, "smoothnl")):
+            S.contract("Mesh.geometry[orchestration, R/Z %s, smoothing=%s]" % ("present" if have_rz else "missing in one region", sm), "hypnotoad.core.mesh:Mesh.geometry", make_orchestration_run(have_rz, sm), expected_exceptions=(ValueError,), shape="three recorder regions")
         S.contract("geometry2[orthogonal]", FN_GEOM2, run_geometry2(True), shape="1x1")
         S.contract("geometry2[nonorthogonal]", FN_GEOM2, run_geometry2(False), shape="1x1")
         S.contract("calcBeta", FN_BETA, run_calcBeta, shape="nx=1, ny=1 (xlow 2x1, corners 2x2)")
